@@ -155,17 +155,26 @@ def normList : Option (List String) → Option (Option (List String))
   | some l => (l.mapM hexNorm).map some
   | none => some none
 
+def sinceTest (o : Option Int) (c : Int) : Bool :=
+  match o with
+  | some s => decide (c ≥ s)
+  | none => true
+
+def untilTest (o : Option Int) (c : Int) : Bool :=
+  match o with
+  | some u => decide (c ≤ u)
+  | none => true
+
+/-- the joins against `event_tags`: for every `#k` condition some listed value has a tag row of this version -/
+def Db.tagsTest (db : Db) (o : Option (List (String × List String))) (r : ERow) : Bool :=
+  match o with
+  | some conds => conds.all fun c => c.2.any fun v => db.tags.contains (c.1 ++ v, r.createdAt, r.key)
+  | none => true
+
 /-- the `where` / `join` conditions of one filter's sub-select, the ids and authors already decoded -/
 def Db.rowTest (db : Db) (f : Filter) (ids authors : Option (List String)) (r : ERow) : Bool :=
-  !db.hidden r &&
-  (match f.since with | some s => decide (r.createdAt ≥ s) | none => true) &&
-  (match f.until_ with | some u => decide (r.createdAt ≤ u) | none => true) &&
-  (match ids with | some l => l.contains r.id | none => true) &&
-  (match authors with | some l => l.contains r.pubkey | none => true) &&
-  (match f.kinds with | some l => l.contains r.kind | none => true) &&
-  (match f.tags with
-   | some conds => conds.all fun c => c.2.any fun v => db.tags.contains (c.1 ++ v, r.createdAt, r.key)
-   | none => true)
+  !db.hidden r && sinceTest f.since r.createdAt && untilTest f.until_ r.createdAt &&
+  listedOr true ids r.id && listedOr true authors r.pubkey && listedOr true f.kinds r.kind && db.tagsTest f.tags r
 
 /-- `none` = the query cannot be built (non-hex id) -/
 def Db.rowMatches (db : Db) (f : Filter) (r : ERow) : Option Bool :=
